@@ -212,7 +212,8 @@ class Run:
         self.pool: List[Live] = []
         self.frozen: List[Tuple[Any, List[List[str]]]] = []
         self.known_hit: Optional[Violation] = None
-        self.touched: set = set()
+        self.touched: set = set()      # circuits whose queries are re-checked after this call
+        self.mutated: set = set()      # circuits this call is allowed to change
         self.force_target: Optional[int] = None
         self.moment_ok: Dict[int, Tuple[Any, Any]] = {}
         self.calls: List[Any] = []
@@ -233,9 +234,14 @@ class Run:
             fp = f"{base}@{fault}:{method}"
         if fault == "iter-raises" and base == "C05-STALE":
             cls = cls + "@iter-raises"
+        known = fp in self.check.known_fps
+        if known:
+            # a listed finding gets its own class name, so that minimising some *other* violation
+            # of the same class (the runner shrinks to "same class") cannot slide into it
+            cls = cls + "~known"
         v = Violation(cls, f"after call #{self.step_no} {method} [{fault}]: {msg}", fingerprint=fp)
         self.ctx.event("violation", cls, fp)
-        if fp in self.check.known_fps:
+        if known:
             if self.known_hit is None:
                 self.known_hit = v
             return
@@ -362,6 +368,7 @@ class Run:
         if t is not None:
             self.touched.add(t)
             if name in MUT_NAMES:
+                self.mutated.add(t)
                 self.pool[t].last = self.cur
 
     def after_failure(self, t: int, atomic: bool, call_ops: Sequence[AOp], removal: bool = False) -> None:
@@ -429,6 +436,7 @@ class Run:
             i = free[self.tape.draw(len(free), "result-slot")]
             self.pool[i] = lv
         self.touched.add(i)
+        self.mutated.add(i)
         if self.tape.chance(1, 2, "mutate-result-next"):
             self.force_target = i
         return i
@@ -561,25 +569,28 @@ class Run:
             if ua.shape != ub.shape or not np.allclose(ua, ub, atol=1e-9):
                 self.flag("C05-STALE:unitary", f"circuit {i}: unitary() differs from the rebuilt copy's", who=i)
                 return False
-        # a subsequent append lands where it lands on the rebuilt copy
-        probes = self.check.probe_ops
-        off = self.tape.draw(len(probes), "probe-rotation")
-        outs = []
-        for circ in (clone, fresh):
-            res = []
-            for k in range(len(probes)):
-                try:
-                    circ.append(probes[(off + k) % len(probes)])
-                    res.append(None)
-                except Exception as e:  # noqa: BLE001
-                    res.append(type(e).__name__)
-            outs.append((res, [sorted(map(repr, m.operations)) for m in circ.moments]))
-        if outs[0] != outs[1]:
-            self.flag("C05-PLACEMENT-CACHE",
-                      f"circuit {i} ({M.show(lv.m)}; caches alive {dict(zip(CACHE_FIELDS, alive))}): appending the "
-                      f"probe operations (rotation {off}) gives {_short(outs[0])} but on a freshly rebuilt equal "
-                      f"circuit {_short(outs[1])}", who=i)
-            return False
+        # a subsequent append lands where it lands on the rebuilt copy.  With a live placement
+        # cache every probe operation is tried on its own copy (one stale index must not be
+        # hidden by an earlier probe); without one, one pass over all of them.
+        probes = self.check.probe_items
+        groups = [[p] for p in probes] if (alive[0] or not hasattr(c, CACHE_FIELDS[0])) else [probes]
+        for g in groups:
+            outs = []
+            for circ in (clone_with_caches(c), fresh.copy()):
+                res = []
+                for p in g:
+                    try:
+                        circ.append(p)
+                        res.append(None)
+                    except Exception as e:  # noqa: BLE001
+                        res.append(type(e).__name__)
+                outs.append((res, [sorted(map(repr, m.operations)) for m in circ.moments]))
+            if outs[0] != outs[1]:
+                self.flag("C05-PLACEMENT-CACHE",
+                          f"circuit {i} ({M.show(lv.m)}; caches alive {dict(zip(CACHE_FIELDS, alive))}): appending "
+                          f"{[str(p) for p in g]} gives {_short(outs[0])} but on a freshly rebuilt equal "
+                          f"circuit {_short(outs[1])}", who=i)
+                return False
         return True
 
     def repair(self, i: int) -> None:
@@ -594,8 +605,8 @@ class Run:
         for i, lv in enumerate(self.pool):
             N = self.decode(lv.c)
             if not M.same_layout(N, lv.m):
-                if i not in self.touched:
-                    self.flag("C05-ALIAS", f"circuit {i} was not an argument of the call but changed: "
+                if i not in self.mutated:
+                    self.flag("C05-ALIAS", f"circuit {i} is not what the call edits, but it changed: "
                                            f"{M.show(lv.m)} -> {M.show(N)}")
                 else:
                     self.mismatch(lv.m, N)
@@ -1553,12 +1564,14 @@ class Run:
         self.step_no = 0
         for _ in range(n_init):
             self.touched = set()
+            self.mutated = set()
             self.call_construct()
             self.force_target = None
         self.check_all()
         for s in range(1, n_calls + 1):
             self.step_no = s
             self.touched = set()
+            self.mutated = set()
             name = CALLS[tp.weighted(weights, "call")]
             getattr(self, "call_" + {"clear": "clear"}.get(name, name))()
             ctx.steps += 1
@@ -1641,7 +1654,7 @@ class C05(Check):
         "real": "cirq.Circuit, cirq.FrozenCircuit, cirq.Moment, insert strategies, op_tree flattening, all queries",
         "stub": "nothing is stubbed; the reference is engines/circuit_model.py (list of lists of abstract operations)",
     }
-    tiers = {"quick": {"runs": 14000, "wall": 200}, "thorough": {"runs": 240000, "wall": 1500}}
+    tiers = {"quick": {"runs": 9000, "wall": 200}, "thorough": {"runs": 130000, "wall": 1500}}
     per_run_timeout = 60
     expected_probes = ["query-between-two-appends", "append-after-mid-circuit-insert", "failed-inline-batch",
                        "clear-with-failing-index-iterator", "unfreeze-copy-false", "negative-index-below-minus-len",
@@ -1650,6 +1663,7 @@ class C05(Check):
     def __init__(self) -> None:
         self.known_fps: set = set()
         self.probe_ops: list = []
+        self.probe_items: list = []
 
     def setup(self) -> None:
         global cirq, np, sympy
@@ -1666,6 +1680,7 @@ class C05(Check):
                              cirq.X(Q[1]).with_classical_controls("b").with_tags("probe"),
                              cirq.measure(Q[2], key="a").with_tags("probe"),
                              cirq.measure(Q[3], key="b").with_tags("probe")])
+        self.probe_items = self.probe_ops + [cirq.Moment(cirq.Y(Q[0]).with_tags("probe")), cirq.Moment()]
         self.known_fps = {e["fingerprint"] for e in Findings.load().findings if e.get("property") == P}
 
     def run_one(self, tape, ctx: Ctx) -> None:
